@@ -165,9 +165,23 @@ func raceFingerprint(rep string) string {
 	return "race|" + strings.Join(fr, "|")
 }
 
+// RaceViolates says whether a report of the Go race detector (free-running pass) violates
+// property id. Only properties that state freedom from data races say yes; for the others
+// the reports are listed in the evidence file.
+var RaceViolates = func(id, report string) bool { return false }
+
 func Report(id string, vs []Violation) (exit int, nNew int) {
 	if _, races := racePass(); len(races) > 0 {
+		noted := map[string]bool{}
 		for _, r := range races {
+			if !RaceViolates(id, r) {
+				if noted[raceFingerprint(r)] {
+					continue
+				}
+				noted[raceFingerprint(r)] = true
+				fmt.Printf("NOTE: the free-running -race pass reports a data race (%s); %s does not speak of data races, see the evidence file\n", raceFingerprint(r), id)
+				continue
+			}
 			vs = append(vs, Violation{Scenario: "free-running -race pass", Fingerprint: raceFingerprint(r), Message: id + ": the Go race detector reports a data race on the real packages:\n" + firstLines(r, 30), Witness: map[string]any{"report": r}})
 		}
 	}
@@ -247,7 +261,14 @@ func WriteEvidence(e *Evidence) {
 	if *ReplayF != "" {
 		return
 	}
-	if info, _ := racePass(); info != nil && e.Coverage != nil {
+	if info, races := racePass(); info != nil && e.Coverage != nil {
+		var fps []string
+		for _, r := range races {
+			fps = append(fps, raceFingerprint(r))
+		}
+		if len(fps) > 0 {
+			info["reports"] = fps
+		}
 		e.Coverage["race_pass"] = info
 	}
 	e.Tier = *Tier
@@ -265,7 +286,47 @@ func WriteEvidence(e *Evidence) {
 // never be reported as a broken property.
 func Infra(f string, a ...any) {
 	fmt.Printf("INFRA-ERROR "+f+"\n", a...)
+	Cleanup()
 	os.Exit(2)
+}
+
+var (
+	cleanMu  sync.Mutex
+	cleanups []func()
+)
+
+// AtExit registers f to run before the process ends through Infra or Exit (os.Exit skips
+// deferred calls): scratch directories, helper processes.
+func AtExit(f func()) {
+	cleanMu.Lock()
+	cleanups = append(cleanups, f)
+	cleanMu.Unlock()
+}
+
+// TempDir makes a scratch directory that is removed when the process ends.
+func TempDir(parent, pattern string) (string, error) {
+	d, err := os.MkdirTemp(parent, pattern)
+	if err == nil {
+		AtExit(func() { os.RemoveAll(d) })
+	}
+	return d, err
+}
+
+// Cleanup runs what AtExit registered, latest first, once.
+func Cleanup() {
+	cleanMu.Lock()
+	fs := cleanups
+	cleanups = nil
+	cleanMu.Unlock()
+	for i := len(fs) - 1; i >= 0; i-- {
+		fs[i]()
+	}
+}
+
+// Exit ends the process after Cleanup.
+func Exit(code int) {
+	Cleanup()
+	os.Exit(code)
 }
 
 // ---------------------------------------------------------------- sharding
